@@ -26,7 +26,7 @@ RULE = ('correspondence (extracted model vs real library, per colour type of the
         'byte count, MAX_R/G/B or max luma, BLACK/WHITE of the running library against the GENERATED table; col_raw = for a storage value v: '
         'Color::from(Raw::new(v)) -> channels, Raw::from(c), into_storage, to_be_bytes, to_le_bytes: ALL storage values for u8/u16 storage, '
         'one 255-value progression (stride 257, random offset) in each of the 256 strata of 2^16 for 24-bit types plus values with bits 24..31 set; '
-        'col_new = new() with one u8 argument sweeping 0..255 and the other two from edge/random values. '
+        'col_new = new() with one u8 argument sweeping 0..255 and the other two from edge/random values; named = the 8 named RgbColor constants. '
         'search: p_raw / p_new evaluate the property predicates against the documented layout on the implementation, all 2^24 raw values and all '
         '2^24 (r,g,b) argument triples of every type. Non-trivial = result line not empty; distinct = distinct case lines.')
 EXHAUSTIVE = {'quick': False, 'thorough': False}
@@ -62,6 +62,7 @@ def cases(tier, rng):
             yield J('col_raw', name, 0, 256, 1)
             yield J('col_raw', name, 2 ** bpp - 256, 256, 1)
         if kind == 'rgb':
+            yield J('named', name)
             n = 8 if tier == 'quick' else 64
             for axis in range(3):
                 yield J('col_new', name, axis, 0, 0)
@@ -87,6 +88,7 @@ def search(tier, rng):
             yield J('p_raw', name, 2 ** sbits - 65536, 65536, 1)
         # every argument triple of new()
         if kind == 'rgb':
+            yield J('p_named', name)
             for k in range(16):
                 yield J('p_new', name, k * 16, k * 16 + 16)
         else:
